@@ -192,3 +192,7 @@ for n in ["send_many_64_frag", "send_many_64_enobufs", "send_many_63_frag"]:
 # failed multi-packet sends must not leak (ledger of these harnesses is C11 evidence proper)
 for n in ["gone_dropped_multi_att", "gone_dropped_small_att", "transit_carrier_dropped_multi"]:
     HARNESSES[n]["props"].append("C11")
+
+# the trace extraction of the full-width send harnesses costs ~10 min per failing check
+for n in ["send_plan_noatt_nofault", "send_plan_att_nofault", "send_plan_noatt_enobufs", "send_plan_att_enobufs"]:
+    HARNESSES[n]["max_examined"] = 1
